@@ -947,3 +947,6 @@ def run(ctx):
     from . import c17
     from ..core.report import Renamed
     c17.rule_oneshot(Renamed(ctx, lambda r: 'C12.OW5.oneshot'))
+    # saved and re-loaded data keep their labels (rule of C17, shared)
+    from .c17 import h5_order
+    h5_order(ctx, 'C12.OW5.h5order')
